@@ -56,9 +56,42 @@ def prec_arg(e, local_defs):
     return "?"
 
 
-def printer_events(arm_body):
+def conditional_writer(F, call):
+    """`helper(out, prec < X, "(")`: a private function of this crate that writes its string argument when its bool argument is
+    true and nothing otherwise.  Returns (condition, text) or None."""
+    if F is None or call.get("k") != "Call" or call["f"].get("k") != "Path":
+        return None
+    import facts as _f
+    g = _f.private_helper(F, CORE, call["f"]["r"].get("path", ""))
+    if g is None:
+        return None
+    conds = [a for a in call["args"] if a.get("k") == "Binary" and a.get("op") == "Lt"]
+    lits = [a for a in call["args"] if a.get("k") == "Lit" and a["lit"].get("lit") == "str"]
+    if len(conds) != 1 or len(lits) != 1:
+        return None
+    h = F.hir_of(g)
+    params = [(x.get("pat") or x).get("name") for x in h.get("params", [])]
+    bi, si = call["args"].index(conds[0]), call["args"].index(lits[0])
+    if bi >= len(params) or si >= len(params):
+        return None
+    body = h["body"]
+    while body.get("k") == "Block" and not body["stmts"] and body.get("expr"):
+        body = body["expr"]
+    if body.get("k") != "If" or not H.local_name(body["cond"]) or H.local_name(body["cond"])[0] != params[bi]:
+        return None
+    def writes(e):
+        return [m for m in hir_walk(e) if m.get("k") == "MethodCall" and m["name"] in ("write_str", "write_fmt", "push", "push_str")]
+    tw = writes(body["then"])
+    ew = writes(body["else"]) if body.get("else") else []
+    if len(tw) != 1 or ew or params[si] not in H.expr_str(tw[0], 120):
+        return None
+    return conds[0], lits[0]["lit"]["v"]
+
+
+def printer_events(arm_body, F=None, variant=None):
     """Ordered events of a printer arm: ('paren', X) | ('rec', childtext, X) | ('lit', s) | ('fmt', text), with loops flattened
-    as ('loop-begin',)/('loop-end',)."""
+    as ('loop-begin',)/('loop-end',).  `variant`: the arm is shared by several variants (an or-pattern); choices inside it that
+    are made on the variant (`if let V = x.op`, `match x.op`) are followed for this one."""
     body = H.simplify(arm_body)
     local_defs = {}
     events = []
@@ -104,6 +137,14 @@ def printer_events(arm_body):
                             local_defs[nm] = "from"
                         elif t.startswith("Precedence::next("):
                             local_defs[nm] = "next"
+                        elif init.get("k") == "If" and init["cond"].get("k") == "Binary" and init["cond"]["op"] == "Eq" and \
+                                init["cond"]["b"].get("k") == "Lit" and init["cond"]["b"]["lit"].get("v") == 0 and init.get("else") is not None:
+                            # `if index == 0 { A } else { B }` under `.enumerate()`: A for the first element, B for the rest
+                            def tail(b_):
+                                while b_.get("k") == "Block" and not b_["stmts"] and b_.get("expr"):
+                                    b_ = b_["expr"]
+                                return b_
+                            local_defs[nm] = ("first-rest", prec_arg(tail(init["then"]), local_defs), prec_arg(tail(init["else"]), local_defs))
                         else:
                             walk(init)
                 else:
@@ -119,6 +160,12 @@ def printer_events(arm_body):
                 inner = [x for x in inner if x]
                 which = "open" if any(x[0] == "lit" and x[1] == "(" for x in inner) else "close" if any(x[0] == "lit" and x[1] == ")" for x in inner) else "?"
                 events.append(("paren-" + which, prec_arg(c["b"], local_defs)))
+                return
+            if c.get("k") == "Let" and variant and "UnaryOpType::" in H.pat_str(c["pat"]):
+                if ("UnaryOpType::" + variant) in H.pat_str(c["pat"]):
+                    walk(e["then"])
+                elif e.get("else"):
+                    walk(e["else"])
                 return
             if c.get("k") == "Let":
                 # `if let Some(first) = xs.first() { recurse(first, ..) }`
@@ -141,11 +188,22 @@ def printer_events(arm_body):
             walk(e["body"])
             return
         if k == "Match":
+            if variant and any("UnaryOpType::" in H.pat_str(a["pat"]) for a in e["arms"]):
+                hit = [a for a in e["arms"] if ("UnaryOpType::" + variant) in H.pat_str(a["pat"])] or [a for a in e["arms"] if a["pat"]["pk"] == "wild"]
+                for a in hit[:1]:
+                    walk(a["body"])
+                return
             for a in e["arms"]:
                 if "Option::None" in H.pat_str(a["pat"]):
                     continue
                 walk(a["body"])
             return
+        cw = conditional_writer(F, e) if k == "Call" else None
+        if cw:
+            c, text = cw
+            if H.local_name(c["a"]) and "Precedence" in c["a"].get("ty", "") and text in ("(", ")"):
+                events.append(("paren-" + ("open" if text == "(" else "close"), prec_arg(c["b"], local_defs)))
+                return
         if k == "Call" and e["f"].get("k") == "Path" and e["f"]["r"].get("path", "").endswith("recurse"):
             events.append(("rec", H.expr_str(e["args"][0], 40), prec_arg(e["args"][2], local_defs)))
             return
@@ -174,7 +232,7 @@ def printer_table(F, path):
     for a in top["arms"]:
         ptxt = H.pat_str(a["pat"])
         if ptxt.startswith("Expr::BinOp"):
-            ev = printer_events(a["body"])
+            ev = printer_events(a["body"], F)
             recs = [e for e in ev if e[0] == "rec"]
             parens = [e for e in ev if e[0].startswith("paren")]
             if len(recs) != 2 or len(parens) != 2 or parens[0][1] != parens[1][1]:
@@ -192,9 +250,17 @@ def printer_table(F, path):
             inner = [m for m in hir_walk(a["body"]) if m.get("k") == "Match" and m.get("src") == "Normal"]
             if not inner:
                 raise AnchorLost("%s: UnaryOp arm has no inner match" % path)
+            unary_arms = []
             for ua in inner[0]["arms"]:
-                up = H.pat_str(ua["pat"])
-                ev = printer_events(ua["body"])
+                up0 = H.pat_str(ua["pat"])
+                vs = [v for v in ("Positive", "Negative", "Degree") if ("UnaryOpType::" + v) in up0]
+                if len(vs) > 1:
+                    # one arm for several operators (`Positive | Negative => ..`): read once per operator
+                    unary_arms += [(ua, "UnaryOpType::" + v, v) for v in vs]
+                else:
+                    unary_arms.append((ua, up0, None))
+            for ua, up, shared in unary_arms:
+                ev = printer_events(ua["body"], F, shared)
                 recs = [e for e in ev if e[0] == "rec"]
                 parens = [e for e in ev if e[0].startswith("paren")]
                 lits = [e[1] for e in ev if e[0] == "lit"]
@@ -218,23 +284,25 @@ def printer_table(F, path):
                         raise AnchorLost("%s: Degree arm event order %s" % (path, order))
                 T[name] = entry
         elif ptxt.startswith("Expr::Mul"):
-            ev = printer_events(a["body"])
+            ev = printer_events(a["body"], F)
             recs = [e for e in ev if e[0] == "rec"]
             parens = [e for e in ev if e[0].startswith("paren")]
             if not recs or len(parens) != 2 or parens[0][1] != parens[1][1]:
                 raise AnchorLost("%s: Mul arm shape %s" % (path, ev))
             first = recs[0][2]
             rest = recs[-1][2]
+            if len(recs) == 1 and isinstance(first, tuple) and first[0] == "first-rest":
+                first, rest = first[1], first[2]
             T["Mul"] = {"paren": parens[0][1], "first": first, "rest": rest, "special": [e for e in ev if e[0] not in ("rec", "paren-open", "paren-close", "lit", "loop-begin", "loop-end", "first-begin", "first-end")]}
         elif ptxt.startswith("Expr::Call"):
-            ev = printer_events(a["body"])
+            ev = printer_events(a["body"], F)
             recs = [e for e in ev if e[0] == "rec"]
             if not recs or len(set(r[2] for r in recs)) != 1:
                 raise AnchorLost("%s: Call arm shape %s" % (path, ev))
             lits = [e[1] for e in ev if e[0] == "lit"]
             T["Call"] = {"child": recs[0][2], "sep": [l.strip() for l in lits if "," in l], "close": ")" in lits}
         elif ptxt.startswith("Expr::Of"):
-            ev = printer_events(a["body"])
+            ev = printer_events(a["body"], F)
             recs = [e for e in ev if e[0] == "rec"]
             parens = [e for e in ev if e[0].startswith("paren")]
             if len(recs) != 1 or len(parens) != 2 or parens[0][1] != parens[1][1]:
